@@ -30,7 +30,12 @@ MODEL_MAP = [
     {'python': 'pyipmi/interfaces/rmcp.py:Rmcp._receive_rmcp_msg/_receive_ipmi_msg', 'coq': 'Model.Rmcp.receive_ipmi_msg'},
     {'python': 'pyipmi/interfaces/rmcp.py:Rmcp._receive_asf_msg(AsfPong)', 'coq': 'Model.Rmcp.receive_pong'},
     {'python': 'pyipmi/session.py:Session.increment_sequence_number', 'coq': 'Model.Rmcp.incr_seq'},
+    {'python': 'pyipmi/interfaces/rmcp.py:Rmcp.send_and_receive / _send_and_receive (send side: encode_message -> '
+               'IpmbHeaderReq -> encode_ipmb_msg -> _send_ipmi_msg)', 'coq': 'Model.Wire.wire_send (Model.Codec.encode over '
+               'Gen.Layouts.registry, Model.Ipmb.encode_ipmb_msg, Model.Rmcp.send_ipmi_msg)'},
+    {'python': '(specification side) independent receiver of a request datagram', 'coq': 'Model.Wire.wire_recv'},
 ]
+GENS = ['layouts']        # Props/C05.v states the end-to-end theorem over the regenerated registry
 TRUSTED = ['hashlib.md5 (used by the oracle; inside Coq md5 is a Section variable, instantiated per case by the '
            'table of (input, digest) pairs the implementation produced)']
 
@@ -650,6 +655,43 @@ def run(ctx):
     pong_case(spec_pong(oem_iana=4542, oem_def=1), 'asf-oem-defined-nonzero', 'reject-structure')
     pong_case(spec_pong(interactions=0x80), 'interactions-nonzero', 'reject-structure')
 
+    # ---- end to end: Rmcp.send_and_receive(req) for registered request classes with in-range values
+    from . import codec_util as U
+    import pyipmi
+    names = [n for n in U.registry_names() if n.endswith('Req') and isinstance(U.fields_of(U.cls_of(n)), (tuple, list))]
+    picked = ['SetWatchdogTimerReq', 'ActivateSessionReq', 'GetDeviceIdReq'] + \
+        [rng.choice(names) for _ in range(50 if q else 400)]
+    for name in picked:
+        cls = U.cls_of(name)
+        try:
+            env = U.gen_in_range(cls, rng, 'random', None) if U.fields_of(cls) else []
+        except Exception:  # noqa  (classes the generator cannot fill are C01's business)
+            continue
+        st = rng.choice([None, None] + [{'auth': a, 'sid': rid(), 'seq': rid(), 'act': rng.random() < 0.7,
+                                         'pw': rng.choice(okpw)} for a in (0, 2, 4)])
+        sess = mk_session(st)
+        rs_sa, sl, nseq, lun = rng.randrange(2, 256, 2), rng.randrange(0, 256), rng.randrange(64), rng.randrange(4)
+        itf = rmcp.Rmcp(slave_address=sl)
+        itf._sock = FakeSock()
+        itf.host, itf.port = 'bmc', 623
+        itf._session = sess
+        itf.next_sequence_number = nseq
+        req = cls()
+        U.set_env(req, env)
+        req.target = pyipmi.Target(rs_sa)
+        req.lun = lun
+        with md5_recorded() as rec:
+            code, _ = attempt(lambda: itf.send_and_receive(req))
+        sent = itf._sock.sent
+        if sent:
+            code = 0        # the datagram went out; the RetryError is the missing reply
+        h = [rs_sa, lun, sl, 0, (nseq + 1) % 64, req.netfn, req.cmdid]
+        add('chk_e2e %s %s %s %s %s 255 %d %d %d %s' % (
+            c_tab(rec.calls), C.c_str(name), U.c_env(env), C.c_list([str(x) for x in h]), c_sess(st),
+            sess.sequence_number if sess is not None else 0, itf.seq_number, code, C.c_hex(sent[0] if sent else b'')),
+            ('e2e', name, st))
+        D.add(('e2e', name, repr(env), repr(st), tuple(h)), True, 'end-to-end')
+
     # ---- histories in one process (the model is stateless per call / object: any dependence of
     # the implementation on what happened before shows up as a difference at some step)
     def history(oname, calls, key, steps_terms):
@@ -730,7 +772,7 @@ def run(ctx):
             calls.append(['send', sid_, bytes(rng.randrange(256) for _ in range(rng.choice([1, 7, 20]))).hex()])
         history('pack_seq', calls, 'history:datagram-depends-on-earlier-session-state', pack_terms)
 
-    failing, errors = C.coq_cases('C05', 'Model.Rmcp Corr.C05', terms)
+    failing, errors = C.coq_cases('C05', 'Model.Codec Model.Rmcp Corr.C05', terms)
     res.mismatches = [{'case': meta[i], 'term': terms[i][:1500]} for i in failing[:50]]
     res.corr_errors = errors
     res.evaluations += len(terms)
@@ -740,7 +782,8 @@ def run(ctx):
                 'activated / not, passwords None / str / bytes of 0..16 (and 17, 20) bytes, unsupported types, no session, '
                 'None and over-long payloads, every RMCP sequence number; received: per valid datagram every truncation, '
                 '1..3-byte extension, every header byte altered, both quirk settings, random bytes; ASF ping, pongs valid / '
-                'truncated / extended / every byte altered; histories in one process: Rmcp / IpmiMsg objects with different '
+                'truncated / extended / every byte altered; end to end: Rmcp.send_and_receive(req) for ~50 random registered '
+                'request classes with in-range values, random addresses / LUN / rq_seq, with and without session; histories in one process: Rmcp / IpmiMsg objects with different '
                 'length-check settings created in varied order, each then receiving valid / wrong-length datagrams; sequences of '
                 'datagrams on the same Session objects with password / type / id / number / activated changed in between. distinct = distinct canonical inputs, all non-trivial')
     res.samples = [{'term': terms[i][:400], 'case': meta[i]} for i in (0, len(terms) // 3, len(terms) // 2, len(terms) - 1)]
